@@ -603,3 +603,28 @@ UNITS += [
     Unit("C19", "jsonargparse._util:Path.__str__", fixed_accessor("__str__"), acc_post, gc_raises),
     Unit("C19", "jsonargparse._util:Path.__eq__", eq_setup, eq_post, gc_raises),
 ]
+
+
+# ------------------------------------------------------------------------------------------------ path_type(mode): the registered path types
+def pt_setup(ctx):
+    mode = z3.String("the type's mode")
+    skip = z3.Bool("the type's skip_check")
+    extra = ctx.choose(2, "extra-keywords(cwd=...)") == 1
+    v = z3.String("v")
+    seen = []
+    self = Rec("Path_<mode> instance", attrs={"_mode": mode, "_skip_check": skip})
+    calls = {"super": lambda c, a, k: Rec("super()", methods={"__init__": lambda c2, s2, a2, k2: seen.append((a2, dict(k2)))})}
+    cwd = z3.String("cwd")
+    return Setup(env={"self": self, "v": v, "k": {"cwd": cwd} if extra else {}}, calls=calls, data=dict(mode=mode, skip=skip, v=v, seen=seen, extra=extra, cwd=cwd))
+
+
+def pt_post(ctx, st, result):
+    d = st.data
+    want = {"mode": d["mode"], "skip_check": d["skip"]}
+    if d["extra"]:
+        want["cwd"] = d["cwd"]
+    ok = len(d["seen"]) == 1 and len(d["seen"][0][0]) == 1 and d["seen"][0][0][0] is d["v"] and set(d["seen"][0][1]) == set(want) and all(d["seen"][0][1][k] is want[k] for k in want)
+    ctx.oblige("post", "a-value-of-the-type-Path_<mode>-is-checked-by-Path.__init__-with-exactly-that-mode(and the caller's other keywords):the-type-accepts-what-the-mode-says", ok)
+
+
+UNITS.append(Unit("C19", "jsonargparse.typing:path_type.<locals>.PathType.__init__", pt_setup, pt_post, gc_raises, trusted=["super().__init__ is Path.__init__ (its own unit)"]))
